@@ -394,6 +394,8 @@ func ghostType(t string) types.Type {
 		return types.NewSlice(types.Typ[types.Uint8])
 	case "bytes":
 		return types.NewArray(types.Typ[types.Uint8], 1<<40)
+	case "reals":
+		return types.NewArray(types.Typ[types.Float64], 1<<40)
 	case "intset":
 		return types.NewArray(types.Typ[types.Bool], 1<<40)
 	case "intmap":
@@ -495,7 +497,7 @@ func (env *specEnv) index(xt string, ty types.Type, it string) (string, types.Ty
 	}
 	switch u := ty.Underlying().(type) {
 	case *types.Slice:
-		return app("select", e.get(env.cur, e.memRegion(u.Elem())), app("+", app("s.base", xt), it)), u.Elem(), nil
+		return app("select", e.get(env.cur, e.memRegion(u.Elem())), app("ea", app("s.base", xt), it)), u.Elem(), nil
 	case *types.Array:
 		return app("select", xt, it), u.Elem(), nil
 	case *types.Basic:
@@ -508,7 +510,7 @@ func (env *specEnv) index(xt string, ty types.Type, it string) (string, types.Ty
 	case *types.Pointer:
 		if arr, ok := u.Elem().Underlying().(*types.Array); ok {
 			// flattened array: xt is the base address
-			return app("select", e.get(env.cur, e.memRegion(arr.Elem())), app("+", xt, it)), arr.Elem(), nil
+			return app("select", e.get(env.cur, e.memRegion(arr.Elem())), app("ea", xt, it)), arr.Elem(), nil
 		}
 	}
 	return "", nil, fmt.Errorf("cannot index %s", ty)
